@@ -265,12 +265,7 @@ Fixpoint pgo (fuel : nat) (what : entry) (n : option anode) (st : pst) : PR anod
         (* parseFilterExpr *)
         let filter_expr (n : option anode) (st : pst) : PR anode :=
           let* (o, st1) := primary n st in
-          if is_typ st1 ILBracket then
-            let* st2 := skip_item st1 ILBracket in
-            let* (c, st3) := pexpr (Some o) st2 in
-            let* st4 := skip_item st3 IRBracket in
-            Ok (AFilter o c, st4)
-          else Ok (o, st1) in
+          pred_loop f pexpr o st1 in
         (* parseLocationPath(nil) *)
         let location_path (st : pst) : PR anode :=
           match typ st with
